@@ -82,8 +82,13 @@ func (f *crashFs) OpenFile(name string, flag int, perm os.FileMode) (afero.File,
 	return f.wrap(fl, err)
 }
 func (f *crashFs) Remove(name string) error {
-	if _, err := f.inner.Stat(name); err != nil {
+	st, err := f.inner.Stat(name)
+	if err != nil {
 		return f.inner.Remove(name) // nothing to remove: not a state change
+	}
+	if st.IsDir() {
+		f.ctl.tick(f.tag + ":Rmdir") // pruning an empty directory: no object changes
+		return f.inner.Remove(name)
 	}
 	f.ctl.tick(f.tag + ":Remove")
 	return f.inner.Remove(name)
